@@ -304,3 +304,27 @@ Proof.
     destruct (utf8 r) as [t| |] eqn:E2; try discriminate. cbn in H. inversion H; subst.
     apply Forall_app. split; [eapply utf8_1_bytes; eauto|now apply IH].
 Qed.
+
+(* ------------------------------------------------------------------ end-session: where state is put *)
+Lemma quote_plus_state : quote_plus (PS "state"%string) = PS "state"%string.
+Proof. vm_compute. reflexivity. Qed.
+Theorem logout_target_is_place uri s b : utf8 s = Ok b ->
+  logout_target uri (Some s) = Ok (uri ++ 63 :: urlencode_b [(PS "state"%string, b)]).
+Proof.
+  intros H. unfold logout_target. rewrite H. cbn [bind]. unfold urlencode_b. cbn [List.map join fst snd].
+  now rewrite quote_plus_state.
+Qed.
+(* on a post-logout URI without query and fragment delimiter the receiver decodes exactly state *)
+Theorem logout_target_plain uri s b : utf8 s = Ok b -> has 63 uri = false -> has 35 uri = false ->
+  exists t, logout_target uri (Some s) = Ok t /\ split1_c 63 t = Some (uri, urlencode_b [(PS "state"%string, b)])
+            /\ no_c 35 t = true /\ parse_qsl_b (urlencode_b [(PS "state"%string, b)]) = [(PS "state"%string, b)].
+Proof.
+  intros H Hq Hh. eexists. split; [apply (logout_target_is_place uri s b H)|].
+  assert (Hl : Forall pair_bytes [(PS "state"%string, b)]).
+  { constructor; [|constructor]. split; cbn [fst snd]; [|eapply utf8_bytes; eauto].
+    unfold is_bytes. let l := eval vm_compute in (PS "state"%string) in change (PS "state"%string) with l.
+    split_forall; lazy beta; reflexivity. }
+  assert (Hne : [(PS "state"%string, b)] <> []) by discriminate.
+  destruct (place_query_plain uri _ Hl Hne Hq Hh) as (E & A & B & C).
+  rewrite <- E. auto.
+Qed.
